@@ -1,11 +1,12 @@
 (* C13 - Every event loop honours the alarm, file-watch, idle and exception contract.
 
-   This file: the theorems about the executable model of SelectEventLoop (Model/SelectLoop.v,
-   tied to urwid/event_loop/select_loop.py by the virtual-clock correspondence of
-   harness/props/c13.py).  Only statements; every proof is [exact]/[apply] of a lemma of
-   Proofs/SelectLoopProofs.v.  The adapter loops (asyncio, tornado, twisted, trio) and the
-   real-poller ZMQ loop are NOT covered by theorems: they are contract-tested on the real
-   runtimes by the harness (oracle only).
+   This file: the theorems about the executable models of SelectEventLoop (Model/SelectLoop.v)
+   and ZMQEventLoop (Model/ZmqLoop.v, second half of this file), tied to
+   urwid/event_loop/select_loop.py and zmq_loop.py by the virtual-clock correspondence of
+   harness/props/c13.py.  Only statements; every proof is [exact]/[apply] of a lemma of
+   Proofs/SelectLoopProofs.v / Proofs/ZmqLoopProofs.v.  The adapter loops (asyncio, tornado,
+   twisted, trio) and the loops on their real selector/poller are NOT covered by theorems: they
+   are contract-tested on the real runtimes by the harness (oracle only).
 
    Every theorem is quantified over
      setup : any list of calls made before run() (alarm / remove_alarm / watch_file / ...),
@@ -21,7 +22,7 @@
    reads, and that clock never goes backwards. *)
 From Coq Require Import ZArith List Bool.
 Import ListNotations.
-From Urwid Require Import PyBase SelectLoop SelectLoopSpec SelectLoopFacts SelectLoopProofs.
+From Urwid Require Import PyBase SelectLoop ZmqLoop SelectLoopSpec SelectLoopFacts SelectLoopProofs ZmqLoopSpec ZmqLoopProofs.
 Open Scope Z_scope.
 
 Definition history (setup : list action) (beh : behaviour) (env : list step) : list event :=
@@ -256,3 +257,142 @@ Example ex_raise :
        [ERaise false; EAlarmCall 0 1 3; ESelect (Some 3) [] 0 []; ESelect (Some 0) [] 0 [];
         ERmAlarm 1 false; ERmAlarm 1 true; EAlarmSet 1 4 2; EAlarmSet 0 3 1], ORaised).
 Proof. vm_compute. reflexivity. Qed.
+
+
+(* ======================================================================================
+   ZMQEventLoop (Model/ZmqLoop.v).  Same quantifiers.  The alarm, idle and exception clauses
+   hold as for the select loop; the watch clause does not: see zmq_watch_batch_refuted.
+   ====================================================================================== *)
+Definition zhistory (setup : list action) (beh : behaviour) (env : list step) : list event :=
+  rtrace (zs (fst (zscenario setup beh env))).
+Definition zresult (setup : list action) (beh : behaviour) (env : list step) : outcome :=
+  snd (zscenario setup beh env).
+
+Theorem zmq_alarm_once_not_early_in_order :
+  forall setup beh env newer k id t older,
+    zhistory setup beh env = newer ++ EAlarmCall k id t :: older ->
+    (exists due,
+        aset k due id older /\ due <= t /\ ~ acalled k older /\ ~ aremoved k older /\
+        (forall k' d' i', pending k' d' i' older -> due < d' \/ (due = d' /\ k <= k')) /\
+        (forall k' d' i', aset k' d' i' older -> d' < due \/ (d' = due /\ k' < k) ->
+            acalled k' older \/ aremoved k' older)) /\
+    ~ acalled k newer /\ ~ aremoved k newer.
+Proof. intros. eapply zalarm_call_facts; [apply zscenario_hist_ok|eassumption]. Qed.
+Print Assumptions zmq_alarm_once_not_early_in_order.
+
+Theorem zmq_alarm_not_overslept_and_idle_before_quiescent :
+  forall setup beh env newer to regs t ready older,
+    zhistory setup beh env = newer ++ ESelect to regs t ready :: older ->
+    match to with
+    | None => forall k d i, ~ pending k d i older
+    | Some d => 0 <= d /\ (0 < d -> forall k due i, pending k due i older -> t + d <= due)
+    end /\
+    (quiescent to ->
+     exists batch regs0 t0 rest,
+       older = batch ++ ESelect (Some 0) regs0 t0 [] :: rest /\
+       (forall e, In e batch -> is_aw_call e = false) /\
+       (forall h id, iset h id rest -> ~ iremoved h older -> exists t', In (EIdleCall h id t') batch)).
+Proof.
+  intros setup beh env newer to regs t ready older E.
+  exact (proj1 (hist_ok_split _ _) (zscenario_hist_ok setup beh env) _ _ _ E).
+Qed.
+Print Assumptions zmq_alarm_not_overslept_and_idle_before_quiescent.
+
+Theorem zmq_remove_alarm_result :
+  forall setup beh env newer k ok older,
+    zhistory setup beh env = newer ++ ERmAlarm k ok :: older ->
+    (ok = true <-> exists d i, pending k d i older).
+Proof.
+  intros setup beh env newer k ok older E.
+  exact (proj1 (hist_ok_split _ _) (zscenario_hist_ok setup beh env) _ _ _ E).
+Qed.
+Print Assumptions zmq_remove_alarm_result.
+
+Theorem zmq_removed_alarm_never_runs :
+  forall setup beh env newer k older,
+    zhistory setup beh env = newer ++ ERmAlarm k true :: older ->
+    (exists d i, pending k d i older) /\
+    ~ acalled k newer /\
+    (forall ok, In (ERmAlarm k ok) newer -> ok = false).
+Proof. intros. eapply zalarm_removed_facts; [apply zscenario_hist_ok|eassumption]. Qed.
+Print Assumptions zmq_removed_alarm_never_runs.
+
+Theorem zmq_idle_called_only_while_registered :
+  forall setup beh env newer h id t older,
+    zhistory setup beh env = newer ++ EIdleCall h id t :: older ->
+    iset h id older /\ ~ iremoved h older.
+Proof.
+  intros setup beh env newer h id t older E.
+  exact (proj1 (hist_ok_split _ _) (zscenario_hist_ok setup beh env) _ _ _ E).
+Qed.
+Print Assumptions zmq_idle_called_only_while_registered.
+
+Theorem zmq_removed_idle_not_called :
+  forall setup beh env newer h older,
+    zhistory setup beh env = newer ++ ERmIdle h true :: older ->
+    (forall id t, ~ In (EIdleCall h id t) newer) /\ (forall ok, In (ERmIdle h ok) newer -> ok = false).
+Proof. intros. eapply zidle_removed_facts; [apply zscenario_hist_ok|eassumption]. Qed.
+Print Assumptions zmq_removed_idle_not_called.
+
+(* watch clause, the part that holds: a watch callback runs only as the callback currently
+   registered for its descriptor (so never after remove_watch_file, until registered again) *)
+Theorem zmq_watch_called_only_while_registered :
+  forall setup beh env newer fd id t older,
+    zhistory setup beh env = newer ++ EWatchCall fd id t :: older ->
+    zwatched fd older = Some id.
+Proof.
+  intros setup beh env newer fd id t older E.
+  exact (proj1 (hist_ok_split _ _) (zscenario_hist_ok setup beh env) _ _ _ E).
+Qed.
+Print Assumptions zmq_watch_called_only_while_registered.
+
+(* exception clause, the part that holds: a raise is the last event; ExitMainLoop <-> run() returns,
+   other exception <-> it leaves run(); in every other outcome no callback raised *)
+Theorem zmq_exception_stops_loop :
+  forall setup beh env,
+    (forall a, In a setup -> action_raises a = false) ->
+    match zresult setup beh env with
+    | OReturned => exists r, zhistory setup beh env = ERaise true :: r /\ no_raise r
+    | ORaised => exists r, zhistory setup beh env = ERaise false :: r /\ no_raise r
+    | _ => no_raise (zhistory setup beh env)
+    end.
+Proof. exact zscenario_exceptions. Qed.
+Print Assumptions zmq_exception_stops_loop.
+
+(* The FULL watch / exception clauses for ZMQEventLoop would add: "run() ends by an exception only
+   if a callback raised" and "the ready batch is served unless removed".  They are FALSE of the
+   faithful model (and of the implementation: harness adapter scenario zmq/watch_sibling and the
+   proposed known finding C13-zmq-keyerror-same-batch): *)
+Definition zmq_run_ends_only_by_callback_exception_full : Prop :=
+  forall setup beh env, (forall a, In a setup -> action_raises a = false) ->
+    zresult setup beh env <> OKeyError.
+
+Theorem zmq_watch_batch_refuted :
+  exists setup beh env,
+    (forall a, In a setup -> action_raises a = false) /\
+    (forall id n a, In a (beh id n) -> action_raises a = false) /\
+    zresult setup beh env = OKeyError /\
+    no_raise (zhistory setup beh env).
+Proof.
+  exists [AddWatch 7 20; AddWatch 8 21], (fun id _ => if id =? 20 then [RemoveWatch 8] else []), [mkStep 0 [7; 8]].
+  split; [|split; [|split]].
+  - intros a [<-|[<-|[]]]; reflexivity.
+  - intros id n a. destruct (id =? 20); [intros [<-|[]]; reflexivity|intros []].
+  - vm_compute. reflexivity.
+  - intros b H. vm_compute in H. intuition discriminate.
+Qed.
+Print Assumptions zmq_watch_batch_refuted.
+
+Example zmq_ex_history :
+  rev (zhistory ex_setup ex_beh ex_env) =
+  [EAlarmSet 0 5 1; EAlarmSet 1 2 2; EWatchSet 7 3; EIdleSet 1 4;
+   ESelect (Some 0) [7] 0 []; EIdleCall 1 4 0;
+   ESelect (Some 2) [7] 0 [7]; EWatchCall 7 3 1;
+   ESelect (Some 0) [7] 1 []; EIdleCall 1 4 1;
+   ESelect (Some 1) [7] 1 [7]; EWatchCall 7 3 1; ERmWatch 7 true;
+   ESelect (Some 0) [] 1 []; EIdleCall 1 4 1;
+   ESelect (Some 1) [] 1 []; EAlarmCall 1 2 2; EAlarmSet 2 3 5;
+   ESelect (Some 0) [] 2 []; EIdleCall 1 4 2;
+   ESelect (Some 1) [] 2 []; EAlarmCall 2 5 3; ERaise true]
+  /\ zresult ex_setup ex_beh ex_env = OReturned.
+Proof. vm_compute. split; reflexivity. Qed.
